@@ -36,13 +36,19 @@ func C11(r *Run) *core.Report {
 	c11L3(r, rep)
 	c11L4(r, rep)
 	// L5: no entry lost, duplicated or resurrected by a grow, a shrink or a Clear - restated premises
-	n := borrow(rep, mapProtocol(r, "C03", 0), "C11.L5", "C03.P4", "C03.P6", "C03.P7", "C03.P10")
-	n += borrow(rep, mapProtocol(r, "C04", 1), "C11.L5", "C04.P4", "C04.P6", "C04.P7", "C04.P10")
+	n := borrow(rep, mapProtocol(r, "C03", 0), "C11.L5", "C03.P4", "C03.P6", "C03.P7", "C03.P10", "C03.P12")
+	n += borrow(rep, mapProtocol(r, "C04", 1), "C11.L5", "C04.P4", "C04.P6", "C04.P7", "C04.P10", "C04.P12")
 	rep.MinCount("C11.L5", "premise obligations (resize / Clear integrity, packed-word consistency)", n, 20)
 	// L6: keys that compare equal hash equal under every seed (otherwise what a call finds depends on seed and
 	// table size) - restated from the hasher rules of C10
 	n6 := borrow(rep, C10(r), "C11.L6", "C10.H")
 	rep.MinCount("C11.L6", "premise obligations (hash agrees with ==)", n6, 4)
+	// L7 (32-bit layout only): the 64-bit words the maps update atomically are 8-byte aligned - otherwise the first
+	// grow, shrink or counter update faults there and the contents depend on the platform (restated from C14.A7)
+	if r.P.GOARCH == "386" {
+		n7 := borrow(rep, C14(r), "C11.L7", "C14.A7")
+		rep.MinCount("C11.L7", "premise obligations (64-bit atomic operands aligned on 386)", n7, 2)
+	}
 	return rep
 }
 
